@@ -36,7 +36,7 @@ class Free:
 CORE = frozenset("""int float varint zigzag bytes gbytes pstr pascal cstr gstr flag enum flagsenum mapping const computed
  pass padding struct seq fseq array grange parray if ite switch rebuild default prefixed fixedsized padded aligned
  nullterm nullstrip check""".split())
-SEQUENTIAL = CORE | frozenset("""docs expr lazybound runtil select optional stopif bitwise bitstruct bytewise byteswapped bitsswapped xor rol
+SEQUENTIAL = CORE | frozenset("""docs expr bint lazybound runtil select optional stopif bitwise bitstruct bytewise byteswapped bitsswapped xor rol
  compressed hex hexdump oneof noneof alignedstruct bomstr index terminated""".split())
 
 
@@ -287,7 +287,11 @@ def gen_element(draw, g):
         if min_size(s) >= 1:
             return s
         return gen_int(draw, maxbytes=2)
-    return gen_struct(draw, g.child(tail=False), min1=True)
+    spec = gen_struct(draw, g.child(tail=False), min1=True)
+    if g.has("index") and draw(st.integers(0, 3)) == 0:
+        # the element records its own position in the repetition (Index reads _index from the enclosing scopes)
+        spec[1].insert(draw(st.integers(0, len(spec[1]))), [g.fresh("i"), ["index"]])
+    return spec
 
 
 def min_size(spec):
@@ -302,7 +306,7 @@ def min_size(spec):
         return len(spec[1]) if spec[2] is None else min_size(spec[2])
     if k in ("enum", "flagsenum", "mapping", "oneof", "noneof", "hex", "hexdump", "exprsym", "expradd", "exprvalid", "lazybound"):
         return min_size(spec[1])
-    if k in ("bytes", "pstr"):
+    if k in ("bytes", "pstr", "bint"):
         return spec[1] if isinstance(spec[1], int) else 0
     if k == "struct":
         return sum(min_size(s) for _, s in spec[1] if s[0] != "stopif") if not any(s[0] == "stopif" for _, s in spec[1]) else 0
@@ -375,10 +379,10 @@ def gen_group(draw, g):
         lf = gen_lenfield(draw)
         dep = draw(st.sampled_from(["bytes", "array", "gbytes_tail"]))
         if dep == "gbytes_tail" and g.tail:
-            return [[n, ["rebuild", lf, ["fn", "len", gref(draw, g, 0, d)]]], [d, ["gbytes"]]]
+            return [[n, ["rebuild", lf, _maybe_lambda(draw, ["fn", "len", gref(draw, g, 0, d)])]], [d, ["gbytes"]]]
         if dep == "array":
-            return [[n, ["rebuild", lf, ["fn", "len", gref(draw, g, 0, d)]]], [d, ["array", gref(draw, g, 0, n), gen_element(draw, g.child(tail=False))]]]
-        return [[n, ["rebuild", lf, ["fn", "len", gref(draw, g, 0, d)]]], [d, ["bytes", gref(draw, g, 0, n)]]]
+            return [[n, ["rebuild", lf, _maybe_lambda(draw, ["fn", "len", gref(draw, g, 0, d)])]], [d, ["array", gref(draw, g, 0, n), gen_element(draw, g.child(tail=False))]]]
+        return [[n, ["rebuild", lf, _maybe_lambda(draw, ["fn", "len", gref(draw, g, 0, d)])]], [d, ["bytes", gref(draw, g, 0, n)]]]
     if o == "condpair":
         t, v = g.fresh("t"), g.fresh("v")
         tk = draw(st.sampled_from(["flag", "int", "enum"]))
@@ -485,13 +489,25 @@ def _mentions(e, lvl, name):
     return _mentions(e[2], lvl, name)
 
 
+def _maybe_lambda(draw, e):
+    """Rebuild accepts any callable of the context, not only expression objects"""
+    return ["lam", "py", e] if draw(st.integers(0, 4)) == 0 else e
+
+
 def gen_dependent(draw, g, lenref):
     """member whose size/count is given by an earlier integer member"""
-    opts = ["bytes", "bytes", "array", "pstr", "fixedsized", "padded", "bytes+k"]
+    opts = ["bytes", "bytes", "array", "pstr", "fixedsized", "padded", "bytes+k", "bint"]
     opts = [o for o in opts if g.has(o.split("+")[0])]
     o = draw(st.sampled_from(opts))
     if o == "bytes":
         return ["bytes", lenref]
+    if o == "bint":
+        # width taken from the data (0 must be refused), byte order constant or taken from a keyword parameter
+        swapped = draw(st.booleans())
+        if g.params and not g.ctxfree and draw(st.booleans()):
+            pk = draw(st.sampled_from(sorted(g.params)))
+            swapped = ["bin", "&", ["this", ["_params", pk], "attr"], ["const", 1]]
+        return ["bint", lenref, draw(st.booleans()), swapped]
     if o == "bytes+k":
         return ["bytes", ["bin", "+", lenref, ["const", draw(st.integers(0, 2))]]]
     if o == "array":
@@ -717,6 +733,12 @@ def gen_value(draw, spec, sc, vp=None):
                               st.integers(0, 1 << 70)))
     if k == "zigzag":
         return draw(st.one_of(st.sampled_from([0, -1, 1, -64, 63, 64, -65, (1 << 64), -(1 << 64) - 1]), st.integers(-(1 << 66), 1 << 66)))
+    if k == "bint":
+        n = ev_len(spec[1], sc)
+        if n is None or n <= 0 or n > 64:
+            n = 1
+        lo, hi = (-(1 << (8 * n - 1)), (1 << (8 * n - 1)) - 1) if spec[2] else (0, (1 << (8 * n)) - 1)
+        return biased_int(draw, lo, hi)
     if k == "bytes":
         n = ev_len(spec[1], sc)
         if n is None:
@@ -946,7 +968,7 @@ def _consts_of(e):
         return [e[1]]
     if k == "bin":
         return _consts_of(e[2]) + _consts_of(e[3])
-    if k in ("un", "fn"):
+    if k in ("un", "fn", "lam"):
         return _consts_of(e[2])
     return []
 
